@@ -231,6 +231,21 @@ def run(tier, seed, ck: Check):
             ev = r["events"][v["bad"] - 1]
             ck.violation("fs-trace", {"placement": PLACEMENTS[pi][0], "fail_at": k}, observed=ev,
                          detail=f"placement {PLACEMENTS[pi][0]} (fail_at={k}): call {v['bad']} {ev['op']} {ev['path']}: {v['why']}")
+    # the trace spec is bound to what was recorded: one corrupted field -> that run rejected
+    good = [r_ for r_, v in zip(runs, vs) if not v["bad"] and r_["events"] and not r_["refused"]][:10]
+    corrupted = []
+    for j, r_ in enumerate(good):
+        r2 = json.loads(json.dumps(r_)); r2["id"] = j
+        if j % 2 == 0:
+            r2["events"][len(r2["events"]) // 2]["root"] = "other"      # one call outside the roots
+        else:
+            r2["refused"] = True                                          # a refused run that touched the tree
+        corrupted.append(r2)
+    if corrupted:
+        cv = validate_traces(corrupted)
+        if [v["id"] for v in cv if not v["bad"]]:
+            raise tlc.TLCFailure(f"FsRun_Trace accepted corrupted runs {[v['id'] for v in cv if not v['bad']]}: the trace spec does not bind")
+        ck.coverage["corrupted_traces_rejected"] = len(cv)
     ck.coverage["placements"] = [p[0] for p in PLACEMENTS]
     ck.coverage["ops_per_clean_run"] = {PLACEMENTS[i][0]: r["n_ops"] for i, r in enumerate(clean)}
     ck.sample({"placement": PLACEMENTS[0][0], "events_head": clean[0]["events"][:6]})
